@@ -109,6 +109,18 @@ CHECKS['C19'] = ('exploration',
    'Volume accuracy is reported, only its sign is judged (the statement asks for positive volume); warnings the renderers log are discarded.',
    'DESIGN.md 2/C19')
 
+
+CHECKS['C04'] = ('exploration',
+   'three-way differential monitor: Polygon2D (quadtree) vs Mesh2DSlow vs an exact-arithmetic crossing-number oracle (float filter + big.Rat) with brute-force segment distance, at query points aimed at the measure-zero sets',
+   'Simple polygons (convex, star-shaped, rectilinear staircases with collinear/horizontal/vertical runs, slivers, many-vertex, integer/dyadic/decimal/irrational grids, far offsets, both orientations) are queried on every vertex level, on every quadtree split line and box corner (MeshSDF2.Boxes()), on the bounding box, at vertices +-1 ulp, far outside and uniformly; fast, slow and oracle must agree in sign (away from the boundary) and in magnitude to 1e-9*scale. Pinned witnesses of the four repaired defect classes stay in the workload.',
+   'Polygons are simple by construction (verified exactly on a subset); edges shorter than 1e-6*size are outside the generated domain (VertexToLine closes loops with an absolute tolerance).',
+   'DESIGN.md 2/C04')
+CHECKS['C20'] = ('exploration',
+   'runtime oracle monitor: Delaunay2d / Delaunay2dSlow outputs checked with exact in-circle and orientation predicates, an independent convex hull (count 2n-2-h, area) and the harness own exact Delaunay triangulation; TriangleISet.Equals exercised on permuted / rotated copies incl. an exhaustive small-subset sweep',
+   'Point sets n=3..400 (1000 thorough) - uniform, clustered, jittered grids, near-collinear hull chains, nearly cocircular rings, scales 1e-3..1e6, offsets up to 10x extent - are judged only when their true triangulation is robustly unique (margins measured with exact arithmetic, skipped sets counted); Equals must be true for every permutation/rotation of a set and false for really different sets.',
+   'Known findings (pinned, KNOWN-FINDING lines): hull triangles with circumradius > ~4096 x extent are lost (super triangle), absolute 1e-12 epsilon breaks sets with circumradii below ~1e-3; the random workload keeps explicit margins from both classes.',
+   'DESIGN.md 2/C20')
+
 NOT_YET = 'monitor not built yet in this round (planned in DESIGN.md section 2); not claimed until its check exists'
 NA = {}
 
